@@ -178,6 +178,9 @@ type dep struct {
 func (m *Model) deps(typ, rel string) []dep {
 	var out []dep
 	d := m.Types[typ][rel]
+	if d == nil {
+		return nil
+	}
 	var walk func(e *Expr, neg bool)
 	walk = func(e *Expr, neg bool) {
 		switch e.K {
